@@ -34,6 +34,7 @@ type Frame struct {
 	pc     int
 	call   ssa.CallInstruction // instruction in the caller awaiting the result
 	visits map[*ssa.BasicBlock]int
+	total  map[*ssa.BasicBlock]int
 	defers []*ssa.Defer
 }
 
@@ -119,6 +120,12 @@ func (s *State) clone() *State {
 	for _, f := range s.frames {
 		nf := &Frame{fn: f.fn, env: make(map[ssa.Value]AV, len(f.env)), block: f.block, prev: f.prev, pc: f.pc, call: f.call,
 			visits: make(map[*ssa.BasicBlock]int, len(f.visits)), defers: append([]*ssa.Defer(nil), f.defers...)}
+		if f.total != nil {
+			nf.total = make(map[*ssa.BasicBlock]int, len(f.total))
+			for k, v := range f.total {
+				nf.total[k] = v
+			}
+		}
 		for k, v := range f.env {
 			nf.env[k] = v
 		}
@@ -538,7 +545,13 @@ func (it *Interp) val(fr *Frame, v ssa.Value) AV {
 	return topOf(v.Type(), true)
 }
 
-func (it *Interp) jump(s *State, fr *Frame, to *ssa.BasicBlock) {
+func (it *Interp) jump(s *State, fr *Frame, to *ssa.BasicBlock) { it.jumpF(s, fr, to, false) }
+
+// jumpF: forked = the branch leading here was not decided by the abstract state.
+// Loops whose condition is decided run to completion (bounded by a large
+// limit); only iterations entered through an undecided condition count against
+// the exploration bound.
+func (it *Interp) jumpF(s *State, fr *Frame, to *ssa.BasicBlock, forked bool) {
 	if len(to.Preds) > 1 && len(s.trail) > 0 {
 		fp := it.fingerprint(s, to)
 		if it.seen[fp] {
@@ -548,10 +561,21 @@ func (it *Interp) jump(s *State, fr *Frame, to *ssa.BasicBlock) {
 		}
 		it.seen[fp] = true
 	}
-	fr.visits[to]++
-	if fr.visits[to] > it.lim.MaxVisits {
-		it.truncate(s, "loop bound")
-		it.stop("")
+	if forked {
+		fr.visits[to]++
+		if fr.visits[to] > it.lim.MaxVisits {
+			it.truncate(s, "loop bound")
+			it.stop("")
+		}
+	} else {
+		if fr.total == nil {
+			fr.total = map[*ssa.BasicBlock]int{}
+		}
+		fr.total[to]++
+		if fr.total[to] > 5000 {
+			it.truncate(s, "iteration bound")
+			it.stop("")
+		}
 	}
 	fr.prev = fr.block
 	fr.block = to
@@ -621,7 +645,7 @@ func (it *Interp) exec(s *State, fr *Frame, in ssa.Instruction) {
 			}
 			s.trail = append(s.trail, trailEntry{Pos: it.p.InstrPos(x), Desc: it.branchDesc(x, x.Cond, true), Opq: c.Opq, Der: c.Der})
 			it.refine(s, fr, x.Cond, true)
-			it.jump(s, fr, fr.block.Succs[0])
+			it.jumpF(s, fr, fr.block.Succs[0], true)
 			return
 		}
 		if c.T {
@@ -688,7 +712,7 @@ func (it *Interp) tryJump(s *State, fr *Frame, to *ssa.BasicBlock) (ok bool) {
 			panic(x)
 		}
 	}()
-	it.jump(s, fr, to)
+	it.jumpF(s, fr, to, true)
 	return true
 }
 
